@@ -4,6 +4,7 @@ package main
 
 import (
 	"fmt"
+	"go/ast"
 	"go/constant"
 	"go/token"
 	"go/types"
@@ -33,6 +34,8 @@ type Oblig struct {
 	Desc    string
 	Fn      string
 	Ins     ssa.Instruction
+	Clause  *Clause
+	Part    ast.Expr
 }
 
 type Item struct {
@@ -1002,17 +1005,24 @@ func (t *fnTrans) checkInvariant(li *loopInfo, st *State, vars map[string]Val, g
 		env.vars[k] = v
 	}
 	for i, cl := range t.ct.LoopInv[li.ordinal] {
-		f := env.evalBool(cl.Expr)
 		label := cl.Label
 		if label == "" {
 			label = fmt.Sprintf("loop%d.%d", li.ordinal, i+1)
 		} else {
 			label = fmt.Sprintf("loop%d.%s", li.ordinal, label)
 		}
-		ob := t.obligG(kind, at, label, guard, f, cl.Text)
-		if ob != nil {
-			ob.Tags = cl.Tags
-			ob.Known = cl.Known
+		parts := splitConj(cl.Expr)
+		for pi, pe := range parts {
+			f := env.evalBool(pe)
+			lb := label
+			if len(parts) > 1 {
+				lb = fmt.Sprintf("%s.%d", label, pi+1)
+			}
+			ob := t.obligG(kind, at, lb, guard, f, "invariant "+exprString(pe))
+			if ob != nil {
+				ob.Tags = cl.Tags
+				ob.Known = cl.Known
+			}
 		}
 	}
 	if kind == "inv-preserve" && li.variant != "" {
